@@ -23,6 +23,7 @@ from . import models
 from .models import builtin
 
 RS = z3.ReSort(z3.StringSort())
+_HOLES = {}
 
 
 def anychar():
@@ -92,7 +93,9 @@ def to_re(items, flags):
     dotall = bool(flags & re.DOTALL)
     parts = []
     for op, av in items:
-        if op is sre_c.LITERAL:
+        if op is sre_c.LITERAL and av in _HOLES:
+            parts.append(z3.Re(_HOLES[av]))
+        elif op is sre_c.LITERAL:
             parts.append(char_re(av, ic))
         elif op is sre_c.NOT_LITERAL:
             parts.append(z3.Diff(anychar(), char_re(av, ic)))
@@ -145,10 +148,14 @@ def to_re(items, flags):
     return parts[0] if len(parts) == 1 else z3.Concat(*parts)
 
 
+HOLE_BASE = 0xE000      # private-use code points stand for spliced symbolic text
+
+
 class CompiledRe:
-    def __init__(self, pattern, flags=0):
+    def __init__(self, pattern, flags=0, holes=None):
         self.pattern = pattern
         self.flags = flags
+        self.holes = holes or {}     # code point -> z3 string term matched literally
         p = sre_parse.parse(pattern, flags)
         self.flags = p.state.flags | flags
         items = list(p)
@@ -168,7 +175,12 @@ class CompiledRe:
         if self.flags & re.MULTILINE and (self.begin or self.end):
             raise EngineLimit('regex MULTILINE anchors')
         self.items = items
-        self.body = to_re(items, self.flags)
+        global _HOLES
+        _HOLES = self.holes
+        try:
+            self.body = to_re(items, self.flags)
+        finally:
+            _HOLES = {}
 
     def tail_re(self, full=False):
         if full or self.end == 'Z':
@@ -336,6 +348,40 @@ def greedy_last_occurrence(ex, cre, groups):
     ex.assume(z3.Not(z3.Contains(z3.Concat(z3.StringVal(lit[1:]), g2.t), z3.StringVal(lit))))
 
 
+def flatten_concat(t):
+    if z3.is_app(t) and t.decl().kind() == z3.Z3_OP_SEQ_CONCAT:
+        out = []
+        for c in t.children():
+            out.extend(flatten_concat(c))
+        return out
+    return [t]
+
+
+def symbolic_pattern(ex, v, node):
+    """A pattern built by splicing symbolic text into literal pattern text.  Text that went
+    through re.escape() matches itself; any other spliced text is an obligation failure
+    (regex-inertness): its characters would be read as pattern syntax."""
+    parts = flatten_concat(z3.simplify(v.t))
+    text = ''
+    holes = {}
+    for part in parts:
+        if z3.is_string_value(part):
+            text += part.as_string()
+            continue
+        cp = HOLE_BASE + len(holes)
+        if z3.is_app(part) and part.decl().name() == 're_escape':
+            holes[cp] = part.arg(0)
+        else:
+            ex.emit(ex.site(node, 'regex-inert'), 'pre@call', z3.BoolVal(False),
+                    {'expr': 'text spliced into a regular expression must be passed through re.escape()'})
+            holes[cp] = part
+        text += chr(cp)
+    try:
+        return CompiledRe(text, 0, holes)
+    except re.error:
+        ex.limit('spliced pattern does not parse', node)
+
+
 def get_flags(ex, v):
     if v is None:
         return 0
@@ -354,7 +400,7 @@ def pattern_of(ex, v, node):
     if isinstance(v, VStr):
         c = v.concrete()
         if c is None:
-            ex.limit('regex pattern is not a constant', node)
+            return symbolic_pattern(ex, v, node)
         return c
     ex.limit(f'regex pattern {v}', node)
 
